@@ -381,6 +381,8 @@ class Interp:
                 return a & b
             if isinstance(op, ast.Mult):
                 return a * b
+            if isinstance(op, ast.Div):
+                return a / b
         except TypeError:
             pass
         raise Unmodelled(f"binary operation {src(e)}")
@@ -418,7 +420,10 @@ class Interp:
 
     def call_expr(self, e: ast.Call, env: Dict[str, Any], f: FuncInfo) -> Any:  # noqa: C901
         fn = e.func
-        args = [self.eval(a, env, f) for a in e.args]
+        if isinstance(fn, ast.Name) and fn.id == "isinstance" and fn.id not in env and len(e.args) == 2:
+            args = [self.eval(e.args[0], env, f), None]
+        else:
+            args = [self.eval(a, env, f) for a in e.args]
         kwargs = {k.arg: self.eval(k.value, env, f) for k in e.keywords if k.arg is not None}
         if any(k.arg is None for k in e.keywords):
             raise Unmodelled(f"**kwargs call {src(e)[:50]}")
@@ -443,6 +448,13 @@ class Interp:
                 bs = b if isinstance(b, tuple) else (b,)
                 return any(self.P.is_subclass(a.qualname, x.qualname) for x in bs)
             if name == "isinstance":
+                tnode = e.args[1]
+                tnames = [tnode] if not isinstance(tnode, ast.Tuple) else list(tnode.elts)
+                py = {"str": str, "int": int, "float": float, "bool": bool, "list": list, "dict": dict, "tuple": tuple, "set": set}
+                if all(isinstance(t, ast.Name) and t.id in py for t in tnames):
+                    return isinstance(args[0], tuple(py[t.id] for t in tnames))  # type: ignore[union-attr]
+                if "isinstance" in self.externals:
+                    return self.externals["isinstance"](args[0], [src(t) for t in tnames])
                 raise Unmodelled(f"isinstance in {src(e)[:50]}")
             if name in ("any", "all"):
                 return {"any": any, "all": all}[name](self.truth(x) for x in args[0])
